@@ -1,5 +1,6 @@
 """What MANIFEST.json claims, per property (bin/mkmanifest renders it)."""
 HOOK_COMMITS = ["0d2849f"]
+FIX_COMMITS = ["637e9cd", "9c26294"]
 
 TB = ("Trusted base: TLC; the harness projection (vertex identification, lattice-lookup fields, file parsers); "
       "the extracted tables/constants are read from the tree under test at check time.")
@@ -48,6 +49,16 @@ CLAIMS = {
        "Pipeline.tla (PipelineTrace.tla).",
   design_ref="DESIGN.md section 6 C11", technique="TLC exhaustive model checking of the pipeline + schedule replay with a hook-based scheduler gate + TLC trace validation of real event logs",
   note=TB + " Schedules are exhaustive for the stated producer counts/batch sizes; larger runs are covered by event-trace validation only."),
+ "C12": dict(
+  text="Pipeline.tla with a sink fault: TLC checks termination under fairness for every writer kind x fault position x "
+       "volume (a writer that returns on a write error while the channel is open violates it; draining, at-end and "
+       "create failures do not) and RenderTop.tla bounds goroutines over render histories. The real ToSTL/To3MF/ToDXF/ToSVG "
+       "are then run, one child process per case, with RLIMIT_FSIZE at every flush boundary (+-1, header, final flush), "
+       "/dev/full and uncreatable paths, for volumes around the buffer threshold; a hang is reported only if the call did "
+       "not return and the goroutine dump shows the producer blocked in the buffer's send. Goroutine counts after "
+       "1..16 renders of every entry point are judged against a bound independent of k (FaultTrace.tla).",
+  design_ref="DESIGN.md section 6 C12", technique="TLC liveness checking of the pipeline under sink faults + fault enumeration on the real code in child processes + TLC trace judgement",
+  note=TB + " Fault points are enumerated per flush boundary for the streamed STL and sampled for the at-end writers; the two defects found (ToSTL hang, goroutine leak) are repaired by fix: commits 637e9cd and 9c26294."),
 }
 
 NOT_APPLICABLE = {}
